@@ -333,7 +333,7 @@ class Gen:
         """(key spec, list of addressed positions) for a sequence of length n"""
         r = self.rng
         forms = ["int", "slice", "boollist", "boolvec", "intlist", "inttuple", "intvec"]
-        wts = [5, 5, 3, 2, 2, 1, 1]
+        wts = [5, 5, 3, 2, 2, 2, 2]
         if n == 0:
             forms, wts = ["slice", "boollist"], [3, 1]
         f = r.choices(forms, wts)[0]
@@ -653,7 +653,8 @@ class Gen:
 
     def g_join(self, world, infos):
         r = self.rng
-        tabs = [i for i in infos if i.is_table and not i.weird and i.ncols > 0]
+        # joins of joins multiply rows: only small operands
+        tabs = [i for i in infos if i.is_table and not i.weird and 0 < i.ncols <= 8 and i.n <= 12]
         if not tabs:
             return None
         l = self.pick(tabs)
@@ -665,7 +666,7 @@ class Gen:
         k = 1 if r.random() < 0.8 else 2
         chosen = [r.choice(pairs) for _ in range(k)]
         rec = {"op": "join", "out": self.new_h(), "h": l.name, "other": rt.name,
-               "kind": r.choice(["inner_join", "join", "full_join"]),
+               "kind": r.choice(self.k.get("join_kinds", ["inner_join", "join", "full_join"])),
                "lon": [self.colspec(l, a, infos) for a, _ in chosen],
                "ron": [self.colspec(rt, b, infos) for _, b in chosen],
                "expect": r.choices(["many_to_many", "many_to_one", "one_to_one"], [6, 1, 1])[0],
@@ -682,7 +683,7 @@ class Gen:
         num = [j for j in range(c.ncols) if c.colkinds[j] in ("int", "float")]
         if not keyable:
             return None
-        rec = {"op": "agg", "out": self.new_h(), "h": c.name, "fn": r.choice(["aggregate", "window"]),
+        rec = {"op": "agg", "out": self.new_h(), "h": c.name, "fn": r.choice(self.k.get("agg_fns", ["aggregate", "window"])),
                "over": [self.colspec(c, r.choice(keyable), infos) for _ in range(1 if r.random() < 0.8 else 2)],
                "single": r.random() < 0.5}
         if num:
@@ -693,8 +694,10 @@ class Gen:
         if r.random() < 0.3:
             names = ["n", "first", "a", "a_sum", "a_sum2", "b_count2", "key", "key2", "col_sum2"]
             rec["apply"] = [{"name": nm, "col": self.colspec(c, r.randrange(c.ncols), infos),
-                             "f": r.choice(["len", "first", "nn", "last"])}
+                             "f": r.choice(["len", "first", "nn", "last", "rev"])}
                             for nm in r.sample(names, r.choice([1, 1, 2]))]
+            if len(rec["apply"]) == 2 and r.random() < 0.6:
+                rec["apply"][1]["col"] = rec["apply"][0]["col"]      # two callbacks over one column
             if self.chance("p_fault", 0.0):
                 rec["fault"] = {"at": r.randint(0, 3)}
         self.touch(rec["out"], c.name)
